@@ -108,7 +108,7 @@ pub fn install_hook() {
         }));
         unsafe {
             for sig in [libc::SIGSEGV, libc::SIGBUS, libc::SIGILL, libc::SIGFPE, libc::SIGABRT] {
-                libc::signal(sig, on_signal as usize);
+                libc::signal(sig, on_signal as *const () as usize);
             }
         }
     });
